@@ -283,6 +283,26 @@ def check_property(prop, tier, configs=None, only=None, keep=False, write_eviden
             P.run_obligations(fb, sc, tier, progress=False)
             dead = {id(f.replaces) for f in fb}
             obs = [o for o in obs if id(o) not in dead] + fb
+        # loop contracts that no longer fit the loop (tool error while instrumenting): bounded stand-in where one is defined
+        bd = []
+        for ob in obs:
+            bf = getattr(ob.contract, 'bounded_fallback', None)
+            if bf and ob.result and ob.result['verdict'] == 'undecided' and re.search(r'goto-cc failed|goto-instrument failed', ob.result.get('reason') or ''):
+                cc = copy.copy(ob.contract)
+                cc.loops = {}
+                cc.requires = list(cc.requires) + list(bf['requires'])
+                cc.unwind = bf['unwind']
+                cc.bounded = 'loop contract not applicable to the rewritten loop: BOUNDED check, %s, %d unwindings with unwinding assertions' % (' && '.join(bf['requires']), bf['unwind'])
+                cc.bounded_fallback = None
+                bo = P.build_obligation(prop, ob.cfgs[0], dbs[ob.cfgs[0]], ob.fn, cc, getattr(ob, 'repl_contracts', None))
+                bo.cfgs = list(ob.cfgs)
+                bo.replaces = ob
+                bd.append(bo)
+        if bd:
+            print('  %d loop contract(s) no longer fit the code; bounded stand-in discharged instead' % len(bd), file=sys.stderr)
+            P.run_obligations(bd, sc, tier, progress=False)
+            dead = {id(b.replaces) for b in bd}
+            obs = [o for o in obs if id(o) not in dead] + bd
         known = [k for k in load_known() if (k['property'] == prop or prop in k.get('also_properties', [])) and k.get('status') == 'open']
         n_cbmc = 0
         n_discharged = 0
@@ -301,8 +321,8 @@ def check_property(prop, tier, configs=None, only=None, keep=False, write_eviden
                 trusted.add(e)
             if v == 'pass':
                 passed.append(ob)
-                if getattr(ob.contract, 'partial', None):
-                    n_partial += r['n_props']       # partial-domain: reported, never counted as proved
+                if getattr(ob.contract, 'partial', None) or getattr(ob.contract, 'bounded', None):
+                    n_partial += r['n_props']       # partial-domain / bounded: reported, never counted as proved
                 else:
                     n_cbmc += r['n_props']
                     n_discharged += r['n_props']
@@ -359,6 +379,26 @@ def check_property(prop, tier, configs=None, only=None, keep=False, write_eviden
                 continue
             n_replayed += 1
             rp = replay.record_and_replay(prop, ob, dbs[ob.cfgs[0]], sc, do_replay=(n_replayed <= MAX_REPLAYS))
+            if rp['status'] == 'not-reproduced' and any(dd.endswith('_UF') for dd in ob.defines):
+                # the failed obligation treats a multiplier / divider / FPU operation as uninterpreted: its counterexample
+                # may rest on values no real multiplier produces.  Discharge the same contract with the operation concrete
+                # (interpreted) to obtain an input of the real arithmetic, and replay that one.
+                cc = copy.copy(ob.contract)
+                cc.defines = [dd for dd in (cc.defines or []) if not dd.endswith('_UF')]
+                cc.flags = list(cc.flags or []) + ['mul']
+                cob = P.build_obligation(prop, ob.cfgs[0], dbs[ob.cfgs[0]], ob.fn, cc, getattr(ob, 'repl_contracts', None))
+                cob.cfgs = list(ob.cfgs)
+                P.run_obligations([cob], sc, tier, progress=False)
+                v2, why2 = classify(cob)
+                if v2 == 'fail':
+                    rp = replay.record_and_replay(prop, cob, dbs[ob.cfgs[0]], sc, do_replay=True)
+                    ob = cob
+                elif v2 == 'pass':
+                    undecided.append((ob, 'fails with the arithmetic operation uninterpreted but passes with it interpreted: the code no longer has the shape the code-level contract states (or relies on arithmetic facts): ' + rp['path']))
+                    continue
+                else:
+                    undecided.append((ob, 'fails with the arithmetic operation uninterpreted; with it interpreted: %s' % (why2 or '')))
+                    continue
             if rp['status'] == 'not-reproduced':
                 undecided.append((ob, 'counterexample did not replay on the real code (model/emitter defect?): ' + rp['path']))
                 continue
@@ -410,8 +450,8 @@ def check_property(prop, tier, configs=None, only=None, keep=False, write_eviden
     return exit_code
 
 
-LEMMA_PROPS = {'C01': 'L1 (64-bit product from 32-bit partial products)', 'C05': 'L5 (Euclidean witness of shift-subtract dividers), L2',
-               'C14': 'L3 (unsigned), L4 (signed) Granlund-Montgomery', 'C15': 'L3, L4 (lane-wise)'}
+LEMMA_PROPS = {'C01': 'L1 (64-bit product from 32-bit partial products)', 'C05': 'L5 (Euclidean witness of shift-subtract dividers), L2, A1 (truncated rounded binary64 quotient)',
+               'C14': 'L3 (unsigned), L4 (signed) Granlund-Montgomery, L6 (high product from partial products)', 'C15': 'L3, L4 (lane-wise), L6'}
 LEMMA_STATUS = {}
 
 
@@ -477,6 +517,7 @@ def write_ev(prop, tier, cfgs, obs, passed, violations, known_hits, undecided, c
             'thorough_tier_only_count': len(NOT_RUN_QUICK),
             'not_covered': NOT_COVERED[:200],
             'not_covered_count': len(NOT_COVERED),
+            'bounded_functions': sorted({ob.ident() + ': ' + ob.contract.bounded for ob in obs if getattr(ob.contract, 'bounded', None)})[:40],
             'partial_domain_functions': sorted({ob.ident() + ': ' + ob.contract.partial for ob in obs if getattr(ob.contract, 'partial', None)})[:80],
             'solver_seconds_by_backend': {k: round(v, 1) for k, v in solver_s.items()},
             'samples': samples,
